@@ -276,10 +276,19 @@ struct WkdRun {
         size_t blocks = op.s.size() / (size_t) sys.l;
         for (size_t b = 1; b < blocks; b++) {
             std::vector<Slot> nxt; std::vector<MAttr> to;
-            resolve(keys[pi].pat, op.s, b * (size_t) sys.l, false, to, nxt);
+            // one block in four re-uses the directives of the previous block with the highest entry on a parent-free slot dropped: the target
+            // list is then the current list minus its tail entry - a path and its prefix, held by the caller as two views of one array
+            std::vector<std::string> alt;
+            if (((op.arg(0) >> 8) + (int64_t) b) % 4 == 0) {
+                alt = op.s; size_t l = (size_t) sys.l;
+                for (size_t i = 0; i < l; i++) alt[b * l + i] = op.s[(b - 1) * l + i];
+                for (size_t i = l; i-- > 0;) { const std::string& t = alt[b * l + i]; if (keys[pi].pat[i].st == ST_FREE && (t.compare(0, 2, "f:") == 0 || t[0] == 'h')) { alt[b * l + i] = "-"; break; } }
+            }
+            resolve(keys[pi].pat, alt.empty() ? op.s : alt, b * (size_t) sys.l, false, to, nxt);
             // the Go wrapper reallocates the slot array to the parent's count before the call
             KeyM& kk = keys[ki];
-            { JAttrs jf(kk.ndlist, false), jt(to, false); call_begin(1); R.jv_wk_adjust_nd(view, kk.sk, keys[pi].sk, &jf.l, &jt.l); expect_no_draws("adjust_nondelegable"); }
+            { JAttrs jf(kk.ndlist, false), jt(to, false); if (jf.share_array_with(jt) || jt.share_array_with(jf)) env.count("fault:from_and_to_lists_are_views_of_one_array");
+              call_begin(1); R.jv_wk_adjust_nd(view, kk.sk, keys[pi].sk, &jf.l, &jt.l); expect_no_draws("adjust_nondelegable"); }
             std::vector<Slot> before = kk.pat; std::vector<MAttr> fromL = kk.ndlist;
             kk.pat = nxt; kk.ndlist = to;
             for (auto& a : fromL) if (a.id >= K().r) env.count("probe:adjust_from_id_ge_r");
@@ -356,7 +365,11 @@ struct WkdRun {
         PreM& p = pres[(size_t) op.arg(0) % pres.size()];
         KeyM* pk = pick_key(op.arg(1)); std::vector<Slot> pat = pk ? pk->pat : std::vector<Slot>((size_t) sys.l);
         std::vector<MAttr> to = derive_list(pat, op.arg(2));
+        // one time in four the target is the current list with its tail dropped or with a higher slot appended: a path and its prefix
+        if ((op.arg(2) >> 16) % 4 == 0) { to = p.list; if (!to.empty() && ((op.arg(2) >> 18) & 1)) to.resize(to.size() - 1 - (size_t) ((op.arg(2) >> 19) % to.size()) % to.size()); else { uint32_t top = to.empty() ? 0 : to.back().idx + 1; if ((int) top < sys.l) to.push_back({top + (uint32_t) ((op.arg(2) >> 19) % (uint32_t) (sys.l - (int) top)), Bn(3 + (uint64_t) (op.arg(2) & 7)), false}); } }
         JAttrs jf(p.list, false), jt(to, false); env.lib_calls++;
+        // ... which such a caller holds as two views over one array of entries
+        if (jf.share_array_with(jt) || jt.share_array_with(jf)) env.count("fault:from_and_to_lists_are_views_of_one_array");
         R.jv_wk_adjust_precomputed(view, p.pre, sys.params, &jf.l, &jt.l);
         for (auto& a : p.list) if (a.id >= K().r) env.count("probe:adjust_precomputed_from_id_ge_r");
         for (auto& a : to) if (a.id >= K().r) env.count("probe:adjust_precomputed_to_id_ge_r");
@@ -645,10 +658,10 @@ struct WkdScenario : Scenario {
             int64_t ss = (int64_t) (r.next() >> 1); std::string kind = kinds[k];
             if (kind == "KEYGEN") { Op o{kind, {ss, r.chance(1, 6), r.chance(1, 3)}, directives(r, l)}; maybe_fault(o); p.ops.push_back(o); }
             else if (kind == "QUALIFY") { Op o{kind, {ss, (int64_t) r.below(64), r.chance(1, 6), r.chance(1, 3)}, directives(r, l)}; maybe_fault(o); p.ops.push_back(o); }
-            else if (kind == "ADJUST") p.ops.push_back({kind, {(int64_t) r.below(64)}, directives(r, l, r.range(2, 4))});
+            else if (kind == "ADJUST") p.ops.push_back({kind, {(int64_t) r.below(1 << 12)}, directives(r, l, r.range(2, 4))});
             else if (kind == "RESAMPLE") { Op o{kind, {ss, (int64_t) r.below(64), r.chance(2, 3)}, {}}; maybe_fault(o); p.ops.push_back(o); }
             else if (kind == "PRECOMP") p.ops.push_back({kind, {(int64_t) r.below(64), (int64_t) r.below(1 << 16)}, {}});
-            else if (kind == "ADJPRE") p.ops.push_back({kind, {(int64_t) r.below(64), (int64_t) r.below(64), (int64_t) r.below(1 << 16)}, {}});
+            else if (kind == "ADJPRE") p.ops.push_back({kind, {(int64_t) r.below(64), (int64_t) r.below(64), (int64_t) r.below(1 << 24)}, {}});
             else if (kind == "ENC") {
                 Op o{kind, {ss, (int64_t) r.below(64), r.chance(1, 2) ? 0 : (int64_t) r.below(1 << 16), r.chance(1, 2)}, {}};
                 if (r.chance(1, 5)) { const char* sf[] = {"storm8:3", "tupler", "tuplerp1", "tuple:r-1", "tuple:0", "tuple:1", "digit:xm1", "storm8:9"}; o.s.push_back(sf[r.below(8)]); }
